@@ -5,10 +5,6 @@ HOOK_COMMITS = ['1939bdb']
 def prop(pid, families, **kw):
     d = dict(families=families); d.update(kw); PROPS[pid] = d
 
-prop('C11', [dict(name='equil', quick=800, thorough=20000)],
-     level_text='Proof (Lean 4): for every m-by-n entry list and machine constants 0<sml<=big the modelled gsequ/laqgs produce factors in [1/big,1/sml], make each row/column maximum exactly 1 unless clamped, report the first zero row/column by position, the documented ratios and the N/R/C/B rule with exact application. The model is a statement-order mirror of the four C files and is compared bit-for-bit with them on every run.',
-     level_note='Theorems are in exact rational arithmetic (every finite float is a rational); the floating-point instance is tied by bit-exact correspondence on sampled inputs, not by proof. Overflow of the intermediate product cj*r[i] and underflow are outside "up to rounding". Machine constants come from dmach/smach at run time.',
-     technique='Lean 4 proof over a bit-mirror model + bit-exact differential check (s,d,c,z)',
-     rule='gsequ+laqgs on generated m-by-n matrices (patterns x value modes: ordinary, wide exponent range, row/column scaled, mixed; explicit zero rows/columns); non-trivial = at least 2 stored entries and info = 0 or a zero row/column reported; distinct by hash of the case text',
-     trusted_base=['IEEE double/single arithmetic of Lean Float/Float32 equals the C compiler\'s (start-up self test)', 'dmach/smach constants are passed to the model as parameters and compared'],
-     assumptions=['machine constants: sfmin = DBL_MIN/FLT_MIN, eps = DBL_EPSILON/2 resp. FLT_EPSILON/2 as returned by dmach/smach'])
+import glob as _glob, os as _os
+for _f in sorted(_glob.glob(_os.path.join(_os.path.dirname(_os.path.abspath(__file__)), 'props.d', '*.py'))):
+    exec(compile(open(_f).read(), _f, 'exec'))
